@@ -300,6 +300,18 @@ fn build_response(req: &Message<Vec<u8>>, qname: &str, qtype: Rtype, flags: Flag
     if class == RespClass::Delegation {
         let ttl = ttl_draw("up.glue_ttl");
         ad.push((dns::name(&format!("ns{:x}.cache.", serial)), Class::IN, Ttl::from_secs(ttl), ip)).unwrap();
+        if flags.dnssec_ok {
+            ad.push((dns::name(&format!("ns{:x}.cache.", serial)), Class::IN, Ttl::from_secs(ttl), sig(Rtype::A, ttl))).unwrap();
+        }
+    } else if matches!(class, RespClass::Positive | RespClass::CnameChain) && sim::chance("up.additional", 1, 3) {
+        // Extra address of a name the answer mentions (with its signature
+        // when DNSSEC records were asked for).
+        let ttl = ttl_draw("up.glue_ttl");
+        let extra = dns::name(&format!("x{:x}.cache.", serial));
+        ad.push((&extra, Class::IN, Ttl::from_secs(ttl), A::new(Ipv4Addr::from(serial ^ 0x4000_0000)))).unwrap();
+        if flags.dnssec_ok {
+            ad.push((&extra, Class::IN, Ttl::from_secs(ttl), sig(Rtype::A, ttl))).unwrap();
+        }
     }
     if req.opt().is_some() {
         ad.opt(|o| {
@@ -383,7 +395,7 @@ fn serial_of(v: &View) -> Vec<u32> {
         match r.rtype {
             Rtype::A => {
                 if let Ok(ip) = r.rdata.parse::<Ipv4Addr>() {
-                    let s = u32::from(ip) & 0x7fff_ffff;
+                    let s = u32::from(ip) & 0x3fff_ffff;
                     out.push(s);
                 }
             }
